@@ -351,9 +351,26 @@ def _urandom(n):
 os.urandom = _urandom
 
 
+def o_url(url):
+    """urllib's view of the factory URL, computed here independently of autobahn.websocket.util.parse_url"""
+    try:
+        r = real_parse.urlparse(url)
+    except ValueError:
+        return {"raises": "ValueError"}
+    try:
+        port = r.port
+        port = {"none": True} if port is None else {"some": port}
+    except ValueError:
+        port = {"raises": True}
+    h = r.hostname
+    return {"ok": [cps(r.scheme), None if h is None else cps(h), port, cps(r.path), cps(r.query), cps(r.fragment), cps(r.netloc)],
+            "unquoted": cps(real_parse.unquote(r.path or "/"))}
+
+
 def client_cfg_readback(conn):
     p, f = conn.proto, conn.factory
-    return {"host": cps(f.host), "port": f.port, "resource": cps(f.resource), "useragent": cps(f.useragent or ""),
+    return {"url": f.url, "url_oracle": o_url(f.url or "ws://localhost"), "path": cps(f.path),
+            "host": cps(f.host), "port": f.port, "resource": cps(f.resource), "useragent": cps(f.useragent or ""),
             "origin": cps(f.origin or ""), "protocols": [cps(x) for x in f.protocols],
             "headers": [[cps(k), cps(v)] for k, v in f.headers.items()], "version": p.version,
             "offers": [cps(o.get_extension_string()) for o in p.perMessageCompressionOffers], "isSecure": bool(f.isSecure)}
